@@ -10,7 +10,7 @@
    that is well-typed for its call ([res_ok]); [peq_all] = for every handler result whatsoever.
    Responder (client socket) write errors are not modelled on either side. *)
 From Rend Require Import base.Bytes gen.Consts_gen spec.MapSpec orca.Types handlers.Std orca.Orcas orca.Faults
-  orca.OrcaSem orca.ProgEq gen.Orcas_gen gen.OrcasLink.
+  orca.OrcaSem orca.ProgEq orca.ProgEqX proto.Resp gen.Orcas_gen gen.OrcasLink gen.OrcasGetLink.
 Open Scope N_scope.
 
 Theorem c01_src_l1only : forall r, src_covered r = true -> peq (l1only_src r) (l1only r).
@@ -74,3 +74,119 @@ Proof.
   - inversion H.
   - inversion H as [| |t q k k' Hk]; subst. specialize (Hk HDone I). inversion Hk.
 Qed.
+
+(* ================= Get and GetE =================
+   The six methods Get / GetE of the three orchestrators are translated as well (the loop that
+   drains the handler's two channels is the combinator [drain] of orca/OrcaSem.v, under the handler
+   contract stated there: responses in order, then at most one error — the shape of [HVals rs eo]).
+   [<orca>_srcg r] dispatches EVERY request that reaches a backend to its generated method.
+   L1OnlyOrca: exact ([peq_all]). The two-tier Get: [peqx_all] (orca/ProgEqX.v) = the same handler
+   calls with the same arguments in the same order, the same returned error, and the same responder
+   calls up to the Exptime inside a PGet/PGat — a field that common.GetResponse, the Go type
+   Responder.Get takes, does not have (the model has one record for GetResponse and GetEResponse and
+   hands the L2 GetE result to PGet whole); no renderer reads it ([c01_src_erase_invisible]). *)
+Theorem c01_src_get_l1only : forall items no ne,
+  peq_all (l1only_Get_src items no ne) (l1only (RGet items no ne)) /\
+  peq_all (l1only_GetE_src items no ne) (l1only (RGetE items no ne)).
+Proof. exact (fun items no ne => conj (l1only_Get_link_all items no ne) (l1only_GetE_link_all items no ne)). Qed.
+Print Assumptions c01_src_get_l1only.
+
+Theorem c01_src_get_l1l2 : forall items no ne,
+  peqx_all (l1l2_Get_src items no ne) (l1l2 (RGet items no ne)) /\
+  peq_all (l1l2_GetE_src items no ne) (l1l2 (RGetE items no ne)).
+Proof. exact (fun items no ne => conj (l1l2_Get_link_all items no ne) (l1l2_GetE_link_all items no ne)). Qed.
+Print Assumptions c01_src_get_l1l2.
+
+Theorem c01_src_get_l1l2batch : forall items no ne,
+  peqx_all (l1l2batch_Get_src items no ne) (l1l2batch (RGet items no ne)) /\
+  peq_all (l1l2batch_GetE_src items no ne) (l1l2batch (RGetE items no ne)).
+Proof. exact (fun items no ne => conj (l1l2batch_Get_link_all items no ne) (l1l2batch_GetE_link_all items no ne)). Qed.
+Print Assumptions c01_src_get_l1l2batch.
+
+(* every request kind, every handler result whatsoever *)
+Theorem c01_src_full : forall r,
+  peq_all (l1only_srcg r) (l1only r) /\ peqx_all (l1l2_srcg r) (l1l2 r) /\ peqx_all (l1l2batch_srcg r) (l1l2batch r).
+Proof. exact (fun r => conj (l1only_srcg_link_all r) (conj (l1l2_srcg_link_all r) (l1l2batch_srcg_link_all r))). Qed.
+Print Assumptions c01_src_full.
+
+(* ... exact for everything but the two-tier Get *)
+Theorem c01_src_full_exact : forall r, (match r with RGet _ _ _ => False | _ => True end) ->
+  peq_all (l1l2_srcg r) (l1l2 r) /\ peq_all (l1l2batch_srcg r) (l1l2batch r).
+Proof. exact l1l2_srcg_link_exact. Qed.
+Print Assumptions c01_src_full_exact.
+
+(* the erased field is invisible on the wire, in both protocols *)
+Theorem c01_src_erase_invisible : forall pr c, render pr (rc_erase c) = render pr c.
+Proof. exact render_erase. Qed.
+Print Assumptions c01_src_erase_invisible.
+
+(* over the direct handlers: same stores, same responder calls (up to that field), same error *)
+Theorem c01_src_full_run : forall r l1 l2 now,
+  run std_exec std_exec (l1only_srcg r) l1 l2 now = run std_exec std_exec (l1only r) l1 l2 now /\
+  obs_erase (run std_exec std_exec (l1l2_srcg r) l1 l2 now) = obs_erase (run std_exec std_exec (l1l2 r) l1 l2 now) /\
+  obs_erase (run std_exec std_exec (l1l2batch_srcg r) l1 l2 now) = obs_erase (run std_exec std_exec (l1l2batch r) l1 l2 now).
+Proof. exact orcas_srcg_run. Qed.
+Print Assumptions c01_src_full_run.
+
+(* under every backend fault plan of orca/Faults.v (C10's interpreter) *)
+Theorem c01_src_full_run_f : forall r pl st now,
+  run_f pl (l1only_srcg r) st now = run_f pl (l1only r) st now /\
+  obs_erase_f (run_f pl (l1l2_srcg r) st now) = obs_erase_f (run_f pl (l1l2 r) st now) /\
+  obs_erase_f (run_f pl (l1l2batch_srcg r) st now) = obs_erase_f (run_f pl (l1l2batch r) st now).
+Proof. exact orcas_srcg_run_f. Qed.
+Print Assumptions c01_src_full_run_f.
+
+(* hence: identical stores, identical returned error and identical BYTES to the client, in either
+   protocol, for every request, without and with backend faults *)
+Theorem c01_src_full_bytes : forall pr r l1 l2 now,
+  run_bytes pr (run std_exec std_exec (l1only_srcg r) l1 l2 now) = run_bytes pr (run std_exec std_exec (l1only r) l1 l2 now) /\
+  run_bytes pr (run std_exec std_exec (l1l2_srcg r) l1 l2 now) = run_bytes pr (run std_exec std_exec (l1l2 r) l1 l2 now) /\
+  run_bytes pr (run std_exec std_exec (l1l2batch_srcg r) l1 l2 now) = run_bytes pr (run std_exec std_exec (l1l2batch r) l1 l2 now).
+Proof. exact orcas_srcg_bytes. Qed.
+Print Assumptions c01_src_full_bytes.
+
+Theorem c01_src_full_bytes_f : forall pr r pl st now,
+  run_f_bytes pr (run_f pl (l1only_srcg r) st now) = run_f_bytes pr (run_f pl (l1only r) st now) /\
+  run_f_bytes pr (run_f pl (l1l2_srcg r) st now) = run_f_bytes pr (run_f pl (l1l2 r) st now) /\
+  run_f_bytes pr (run_f pl (l1l2batch_srcg r) st now) = run_f_bytes pr (run_f pl (l1l2batch r) st now).
+Proof. exact orcas_srcg_bytes_f. Qed.
+Print Assumptions c01_src_full_bytes_f.
+
+(* the general transfer lemma for the relaxed equivalence *)
+Theorem c01_src_transfer_x : forall h1 h2, hexec_ok h1 -> hexec_ok h2 ->
+  forall p p', peqx p p' -> forall l1 l2 now,
+    obs_erase (run h1 h2 p l1 l2 now) = obs_erase (run h1 h2 p' l1 l2 now).
+Proof. exact (peqx_on_run res_ok). Qed.
+Print Assumptions c01_src_transfer_x.
+
+(* non-vacuity: the full dispatcher is the generated method; [peqx] identifies exactly the Exptime
+   inside PGet/PGat and nothing else; a generated two-tier Get really runs (an L1 miss, an L2 hit
+   with 40 s to live: back-fill of L1 with that TTL, the value to the client, the terminator) *)
+Example c01_src_get_dispatch : forall items no ne,
+  l1only_srcg (RGet items no ne) = l1only_Get_src items no ne /\
+  l1only_srcg (RGetE items no ne) = l1only_GetE_src items no ne /\
+  l1l2_srcg (RGet items no ne) = l1l2_Get_src items no ne /\
+  l1l2batch_srcg (RGet items no ne) = l1l2batch_Get_src items no ne /\
+  (forall k o, l1l2_srcg (RDelete k o) = l1l2_Delete_src k o).
+Proof. intros. repeat split. Qed.
+Example c01_src_peqx_discriminates :
+  peqx_all (Emit (PGet (mkGR [1] [2] 3 40 5 false false)) (Ret None)) (Emit (PGet (mkGR [1] [2] 3 0 5 false false)) (Ret None)) /\
+  ~ peqx_all (Emit (PGet (mkGR [1] [2] 3 0 5 false false)) (Ret None)) (Emit (PGet (mkGR [1] [2] 4 0 5 false false)) (Ret None)) /\
+  ~ peqx_all (Emit (PGetE (mkGR [1] [2] 3 40 5 false false)) (Ret None)) (Emit (PGetE (mkGR [1] [2] 3 0 5 false false)) (Ret None)) /\
+  ~ peqx (l1l2_Get_src [mkGI [1] 0 false] 0 true) (l1l2batch (RGet [mkGI [1] 0 false] 0 true)) /\
+  ~ peqx (l1only_Get_src [mkGI [1] 0 false] 0 true) (l1only (RGetE [mkGI [1] 0 false] 0 true)).
+Proof.
+  repeat split.
+  - repeat constructor.
+  - intro H. inversion H as [|c c' p p' Hc Hp|]; subst. discriminate Hc.
+  - intro H. inversion H as [|c c' p p' Hc Hp|]; subst. discriminate Hc.
+  - intro H. inversion H as [| |t q k k' Hk]; subst.
+    specialize (Hk (HVals [mkGR [1] [] 0 0 0 false true] None) I). inversion Hk.
+  - intro H. inversion H.
+Qed.
+Example c01_src_get_runs :
+  let l2 : store := upd empty_store [1] (Some (mkE [9; 9] 7 (At 140))) in
+  let '(l1', l2', cs, e) := run std_exec std_exec (l1l2_Get_src [mkGI [1] 5 false; mkGI [2] 6 true] 8 true) empty_store l2 100 in
+  cs = [PGet (mkGR [1] [9; 9] 7 0 5 false false); PGet (mkGR [2] [] 0 0 6 true true); PGetEnd 8 true] /\
+  e = None /\ l1' [1] = Some (mkE [9; 9] 7 (At 140)) /\ l1' [2] = None.
+Proof. vm_compute. repeat split. Qed.
